@@ -7,7 +7,7 @@ from fractions import Fraction
 import z3
 from . import model as M, api
 from .model import Val, ValSeq, FIN, NAN, PINF, NINF, NZERO, CLS, CLASSES
-from .engine import (SV, Path, PyExc, Unsupported, Infeasible, _Return, Frame, ModuleInfo, ClassTable,
+from .engine import (SV, Path, PyExc, Unsupported, Infeasible, PathCut, _Return, Frame, ModuleInfo, ClassTable,
                      s_int, s_bool, s_str, s_float, s_val, s_seq, s_tuple, s_ref, s_py, S_NONE, lift, simp,
                      conc_int, conc_str, conc_bool)
 from .interp import FuncVal, ClassVal, Builtin
@@ -31,6 +31,7 @@ class PathResult:
         self.inlined = set()
         self.summarised = set()
         self.covers = []
+        self.cut = False            # ended at the inductive step of a loop invariant (no native cross-check)
 
 
 class ContractResult:
@@ -101,7 +102,8 @@ class Runner:
         eng.optional_fields = src.optional_fields
         eng.instance_fields = src.instance_fields
         eng.func_objects = {}
-        eng.loop_contracts = {}
+        from .symapi import spec_funcval
+        eng.loop_invariants = {k: spec_funcval(eng, f).py for k, f in c.invariants.items()}
         eng.harness_mi = hmods[c.module]
         from . import symapi
         symapi.install(eng, c, self)
@@ -226,9 +228,14 @@ class Runner:
                 if ob["status"] == "refuted":
                     a["status"] = "refuted"
                     a["refutations"].append(ob)
-                elif ob["status"] == "unknown" and a["status"] == "proved":
-                    a["status"] = "unknown"
-                    a["why"].add(ob.get("why", "solver unknown"))
+                elif ob["status"] == "unknown":
+                    if ob.get("sat"):
+                        a["sat"] = True
+                        a.setdefault("model", ob.get("model_text", ""))
+                    if a["status"] == "proved":
+                        a["status"] = "unknown"
+                    if a["status"] == "unknown":
+                        a["why"].add(ob.get("why", "solver unknown"))
         if res.status == "budget":
             for a in agg.values():
                 if a["status"] == "proved":
@@ -315,6 +322,8 @@ class Runner:
                 eng.exec_block(hnode.body, hfr)
             except _Return:
                 pass
+            except PathCut:
+                pr.cut = True
             pr.status = "ok"
         except Unsupported as e:
             pr.status, pr.detail = "unsupported", str(e)
@@ -354,7 +363,7 @@ class Runner:
                 ob = self.discharge(eng, c, p, name, cond, gs, info)
                 pr.obligations.append(ob)
                 allproved = allproved and ob["status"] == "proved"
-            if pr.status == "ok" and allproved and c.native is not None and not c.canary:
+            if pr.status == "ok" and allproved and c.native is not None and not c.canary and not pr.cut:
                 pr.crosscheck = self.crosscheck(eng, c, p)
         pr.solver_s = time.time() - t0
         return pr
@@ -449,6 +458,11 @@ class Runner:
             if s.check() != z3.sat:
                 break
         ob["status"] = "unknown"
+        ob["sat"] = True            # the solver refuted the VC; no counter-model replays on the real code
+        try:
+            ob["model_text"] = str(m)[:1500]
+        except Exception:      # noqa
+            pass
         ob["why"] = "counter-models do not replay natively (abstraction of a callee/UF): " + "; ".join(tried[:3])
         return ob
 
@@ -483,6 +497,10 @@ class Runner:
         out = {}
         sig = inspect.signature(c.fn)
         objs = {}
+        if getattr(c, "heap_inputs", False):
+            # object-graph inputs: rebuild dictionaries / prototype links; candidate keys = string inputs
+            objs["__heap__"] = True
+            objs["__strings__"] = [z3_str(m.eval(sv.t, model_completion=True)) for sv in p.inputs.values() if sv.kind == "str"]
         for name in sig.parameters:
             out[name] = self.sv_to_py(eng, p, m, p.inputs[name], objs)
         return out
@@ -580,6 +598,23 @@ class Runner:
                 if not isinstance(o._elements, list):
                     o._elements = list(o._elements)
             return o
+        if cn == "dict":
+            o = {}
+            objs[key] = o
+            dom = z3.Select(h0("dict.dom"), ref)
+            mp = z3.Select(h0("dict.map"), ref)
+            order = z3.Select(h0("dict.order"), ref)
+            cands = []
+            try:
+                n = ev(z3.Length(order)).as_long()
+                cands += [z3_str(ev(order[i])) for i in range(min(n, 16))]
+            except Exception:      # noqa
+                pass
+            cands += [x for x in objs.get("__strings__", []) if x not in cands]
+            for kx in cands:
+                if z3.is_true(ev(z3.Select(dom, z3.StringVal(kx)))):
+                    o[kx] = self.val_to_py(eng, p, m, ev(z3.Select(mp, z3.StringVal(kx))), objs)
+            return o
         if cn == "JSObject":
             o = V.JSObject()
         elif cn == "JSCallableObject":
@@ -612,6 +647,22 @@ class Runner:
         else:
             raise Unsupported(f"materialise {cn}")
         objs[key] = o
+        if isinstance(o, V.JSObject) and objs.get("__heap__"):
+            # own-property dictionaries and prototype link of the initial heap
+            for fld in ("_properties", "_getters", "_setters"):
+                dv = ev(z3.Select(h0(fld), ref))
+                if dv.decl().name() == "VRef" and CLASSES[dv.arg(0).as_long()] == "dict":
+                    d = self.ref_to_py(eng, p, m, dv.arg(0).as_long(), dv.arg(1).as_long(), objs)
+                    getattr(o, fld).update(d)
+            pv = ev(z3.Select(h0("_prototype"), ref))
+            depth = objs.get("__depth__", 0)
+            if pv.decl().name() == "VRef" and depth < 6:
+                objs["__depth__"] = depth + 1
+                try:
+                    pr = self.val_to_py(eng, p, m, pv, objs)
+                finally:
+                    objs["__depth__"] = depth
+                o._prototype = pr if isinstance(pr, V.JSObject) else None
         return o
 
     # ------------------------------------------------------------------ native execution
@@ -626,6 +677,7 @@ class Runner:
         g = c.fn.__globals__
         run = api.NativeRun()
         api.NativeRun.current = run
+        api.GHOST.clear()
         old = g.get("REAL", None)
         try:
             g["REAL"] = self.native_real(c, inputs)
@@ -733,6 +785,6 @@ FIELD_TYPES = {
     "CompiledFunction.locals": "list", "CompiledFunction.params": "list",
     "CompiledFunction.free_vars": "list", "CompiledFunction.cell_vars": "list",
     "Compiler.bytecode": "list", "Compiler.source_map": "dict", "Compiler.constants": "list", "Compiler.locals": "list",
-    "JSTypedArray._data": "list", "JSFunction.params": "list",
+    "JSTypedArray._data": "list", "JSFunction.params": "list", "JSFunction._properties": "dict",
     "ForInIterator.keys": "list", "ForOfIterator.values": "list",
 }
